@@ -2,6 +2,7 @@ import NflowsModel.Lemmas.ChangeOfVar
 import NflowsModel.Lemmas.Gaussian
 import Mathlib.Analysis.Calculus.Deriv.Comp
 import Mathlib.Analysis.Calculus.Deriv.Add
+import Mathlib.Analysis.SpecialFunctions.Trigonometric.DerivHyp
 /-!
 # C03 — a flow's `log_prob` is a normalised probability density
 
@@ -77,6 +78,15 @@ theorem prog_ld_cons (a : Diffeo1) (rest : List Diffeo1) (x : ℝ) :
 /-- base: the diagonal normal (standard normal = μ 0, log σ 0) is normalised for every dimension -/
 theorem base_normalised {D : ℕ} (μ ls : Fin D → ℝ) : ∫ x : Fin D → ℝ, Real.exp (Gaussian.diagNormalLogp μ ls x) = 1 :=
   Gaussian.diagNormal_normalised μ ls
+
+/-- `LogTanh`: with the constructor's `beta = exp((tanh c - alpha log c) / alpha)` the logarithmic tail
+    `alpha * log(beta * x)` joins the `tanh` part continuously at the cut point `c` (so the transform is a bijection of
+    the line onto the line; nonlinearities.py:66-90) — for every cut point `c > 0` and every `alpha ≠ 0`. -/
+theorem logtanh_tail_joins (c alpha : ℝ) (hc : 0 < c) (ha : alpha ≠ 0) :
+    alpha * Real.log (Real.exp ((Real.tanh c - alpha * Real.log c) / alpha) * c) = Real.tanh c := by
+  rw [Real.log_mul (Real.exp_pos _).ne' hc.ne', Real.log_exp]
+  field_simp
+  ring
 
 /-! non-vacuity: the affine map x ↦ 2x+1 is a `Diffeo1` with ld = log 2 -/
 example : ∃ d : Diffeo1, d.f 1 = 3 := by
